@@ -44,6 +44,16 @@ _TIER_SETS = st.one_of(
 _W = st.sampled_from([0.0, 0.05, 0.2, 0.25, 0.5, 0.75, 1.0])
 
 
+def _with_offset(ts: str, minutes: int) -> str:
+    """The same instant as `ts`, spelled in the zone UTC+minutes (e.g. 2025-01-02T05:00:00+10:00)."""
+    import datetime as _dt
+
+    t = _dt.datetime.fromisoformat(ts.replace("Z", "+00:00"))
+    if t.tzinfo is None:
+        t = t.replace(tzinfo=_dt.timezone.utc)
+    return t.astimezone(_dt.timezone(_dt.timedelta(minutes=minutes))).isoformat()
+
+
 @st.composite
 def cases(draw):
     eps = draw(world.episode_lists())
@@ -77,6 +87,10 @@ def cases(draw):
             q["mmr"] = {"enabled": True, "lambda": draw(st.sampled_from([0.0, 0.5, 1.0])), "k": draw(st.sampled_from([1, 2, 10]))}
         t2["quality"] = q
     agent = draw(st.sampled_from(["A", "B", "C", "world"]))
+    # the same instants written with an explicit non-UTC offset (ISO-8601 allows it): windows and recency must not move
+    for e in eps:
+        if e.get("ts") and draw(st.sampled_from([False, False, True])):
+            e["ts"] = _with_offset(e["ts"], draw(st.sampled_from([600, -600, 330, -45, 840])))
     ep_words = [w for e in eps for w in (e.get("text") or "").lower().split()] or world.VOCAB
     words = draw(st.lists(st.sampled_from(ep_words + world.VOCAB[:3]), min_size=0, max_size=4))
     text = " ".join(words)
